@@ -262,6 +262,7 @@ class MappingStorage:
                     oid=oid, serials=(old_tid, serial), data=data)
 
         self._tdata[oid] = data
+        self._oid = max(self._oid, ZODB.utils.u64(oid))
 
     checkCurrentSerialInTransaction = (
         ZODB.BaseStorage.checkCurrentSerialInTransaction)
